@@ -134,6 +134,11 @@ def cmd_detect(name, tier, props):
         import hashlib
         tdir = os.path.join(VERIF, ".build", "target-" + hashlib.sha1(wt.encode()).hexdigest()[:10])
         shutil.rmtree(tdir, ignore_errors=True)
+        # and the generated manifest / log directories of this scratch copy
+        harness = os.environ.get("VERIF_HARNESS") or os.path.join(VERIF, "harness")
+        cname = "crate-" + hashlib.sha1((wt + "|" + harness).encode()).hexdigest()[:10]
+        shutil.rmtree(os.path.join(VERIF, ".build", cname), ignore_errors=True)
+        shutil.rmtree(os.path.join(VERIF, ".build", "logs", cname), ignore_errors=True)
     meta["detection"] = det
     save(name, meta)
 
